@@ -98,6 +98,14 @@ Theorem C04_nested : forall env s path name m,
 Proof. intros env s path name m Hstd. exact (c04_tree env Hstd s path name m). Qed.
 Print Assumptions C04_nested.
 
+(* ... and the fragment is exact for trees too: a compiled tree reads back as declared
+   iff every schema of it lies in the fragment *)
+Theorem C04_nested_exact : forall env s path name m,
+  zero_std env = true -> write_schema env path name s = Ok m ->
+  (read_tree env path m = Ok (norm_schema env path name s) <-> tree_rt s = true).
+Proof. intros env s path name m Hstd. exact (c04_tree_exact env Hstd s path name m). Qed.
+Print Assumptions C04_nested_exact.
+
 (* non-vacuity: Foo { someURL : inline object (default name) { a : string };
                       items : array of inline oneof "Item" { deep : inline object { q : bool } } }
    — the reflected schemas are Foo, Foo_SomeUrl, Foo_Item, Foo_Item_Deep, and the fields
